@@ -6,6 +6,7 @@ namespace Hannibal
 
 structure C05St where
   hold : HoldSt
+  inflight : List Nat          -- in-flight try_send / try_call / try_halt / Caller::call (they own a strong handle)
   stopIssued : Bool
   restartsPending : Nat
   failure : Bool
@@ -19,17 +20,22 @@ structure C05St where
   deriving Repr, DecidableEq
 
 def monC05 (c : MonCtx) : Mon C05St where
-  init := { hold := HoldSt.init c.h0 c.k0, stopIssued := false, restartsPending := 0, failure := false,
+  init := { hold := HoldSt.init c.h0 c.k0, inflight := [], stopIssued := false, restartsPending := 0, failure := false,
             streamEnded := false, terminated := false, graceful := false, sends := [], sentOk := [],
             handled := [], everEmpty := false }
   step st l :=
     -- (3) upgrading succeeds only while a strong holder exists
     let bad3 := (match l with
-      | .upgrade _ (some _) => !st.hold.strongHeld
+      | .upgrade _ (some _) => !st.hold.strongHeld && st.inflight.isEmpty
       | _ => false)
     if bad3 then none else
     let hold' := st.hold.step l
-    let st := { st with hold := hold', everEmpty := st.everEmpty || !hold'.strongHeld }
+    let inflight' := (match l with
+      | .begin o _ (.trySend _) | .begin o _ (.tryCall _) | .begin o _ .tryHalt | .begin o _ (.callw _) =>
+        o :: st.inflight
+      | .ret o _ | .cdrop o => st.inflight.filter (fun x => x != o)
+      | _ => st.inflight)
+    let st := { st with hold := hold', inflight := inflight', everEmpty := st.everEmpty || !hold'.strongHeld }
     match l with
     | .stopReq _ _ | .ctxStop _ => some { st with stopIssued := true }
     | .restartReq _ true | .ctxRestart true => some { st with restartsPending := st.restartsPending + 1 }
